@@ -22,6 +22,7 @@ import RubatoProofs.Async.FixedIn
 import RubatoProofs.Async.FixedOut
 import RubatoProofs.Fft.Control
 import RubatoProofs.Async.FixedInHistory
+import RubatoProofs.Async.Diverge
 
 set_option linter.unusedSectionVars false
 set_option linter.unusedVariables false
@@ -196,5 +197,19 @@ theorem fixedIn_constant_ratio_never_crashes {kind : AKind} (hk : kind = .fastIn
         FixedInHistory.GoodIn (s.process a).1) ∧
     (¬ FixedInHistory.ValidCall s a → ∃ e, (s.process a).2 = .err e) :=
   FixedInHistory.fixedIn_constant_ratio_safe hk hL hn hn2 hm h ops a
+
+end Rubato.C03
+
+namespace Rubato.C03
+open Rubato
+
+/-- finding D17 on the model [exact]: once the ramp has driven the step to `t + inc ≤ 0` with `inc ≤ 0`, the fixed-input
+stepping loop never reaches `end_idx` — it uses up ANY fuel and emits one position per unit of fuel.  With an active channel
+the fuel is the room of the output buffer (out-of-range write, D3/D4); with no active channel the real loop has nothing that
+stops it (the model ends the call in `panic "position diverges"` after its idle fuel) -/
+theorem fixedIn_ramp_can_diverge (inc endIdx : ℚ) (hinc : inc ≤ 0) (fuel : ℕ) (t idx : ℚ)
+    (ht : t + inc ≤ 0) (hi : idx < endIdx) :
+    (stepsIn inc endIdx fuel t idx).2.2 = true ∧ (stepsIn inc endIdx fuel t idx).1.length = fuel :=
+  ⟨Diverge.stepsIn_diverges inc endIdx hinc fuel t idx ht hi, Diverge.stepsIn_diverges_length inc endIdx hinc fuel t idx ht hi⟩
 
 end Rubato.C03
